@@ -574,7 +574,7 @@ class domain(config_domain):
             # stable; thus empty entries == ~arch
             def f(r, v):
                 if not v:
-                    return r, self.unstable_arch
+                    return r, (self.unstable_arch,)
                 return r, v
 
             data = collapsed_restrict_to_data(
